@@ -309,7 +309,10 @@ class Term:
         elif isinstance(other, type(self)):
             if len(other.components) == 1 and isinstance(other.components[0].name, (int, float)):
                 raise TypeError("Interaction with numeric does not make sense.")
-            return Model(self, other, Term(*deepcopy(self.components), *deepcopy(other.components)))
+            # Model addition drops repeated terms, e.g. "x:y * y" where the interaction is "x:y"
+            return Model(self, other) + Model(
+                Term(*deepcopy(self.components), *deepcopy(other.components))
+            )
         elif isinstance(other, Model):
             products = product([self], other.common_terms)
             iterms = [
@@ -361,7 +364,8 @@ class Term:
         elif isinstance(other, type(self)):
             if len(other.components) == 1 and isinstance(other.components[0].name, (int, float)):
                 raise TypeError("Interaction with numbers does not make sense.")
-            return Model(self, Term(*self.components, *other.components))
+            # Model addition drops repeated terms, e.g. "x:y / y" where the nested term is "x:y"
+            return Model(self) + Model(Term(*self.components, *other.components))
         elif isinstance(other, Model):
             products = product([self], other.common_terms)
             iterms = [Term(*p[0].components, *p[1].components) for p in products]
